@@ -13,7 +13,7 @@
  * no stored index of g_c refers to a number that no longer exists, no index twice, and g_c lost exactly the entry of old vector j. */
 #include "mirror_spec.h"
 int g_rm_calls, g_rm_arg, g_rm_set, g_add_r, g_add_c, g_eps, g_sv, g_newnum; const int* gp_cnt;
-int *gp_om, *gp_os, *gp_cm, *gp_cs, *gp_perm; int g_pos_i, g_pos_n; int* gp_pe;
+struct nzc *gp_om, *gp_cm, *gp_pe; int *gp_os, *gp_cs, *gp_perm; int g_pos_i, g_pos_n;
 int g_i, g_c, g_src, g_j, g_n0, g_last, g_has, g_v, g_hadj, g_cs0;
 /* old content of cross vector g_c, looked up at the indices g_i, j, last (specification ghosts for the loop invariants) */
 int g_oh, g_ov, g_ohj, g_ohl, g_ovl;
@@ -23,9 +23,9 @@ int g_oh, g_ov, g_ohj, g_ohl, g_ovl;
 #define OWNSET 1
 #endif
 
-void w_rm(int* om, int* os, int* cm, int* cs, int* nown, int* ncross, int j)
-__CPROVER_requires(__CPROVER_is_fresh(om, FILE_INTS * sizeof(int)) && __CPROVER_is_fresh(os, CAP * sizeof(int)))
-__CPROVER_requires(__CPROVER_is_fresh(cm, FILE_INTS * sizeof(int)) && __CPROVER_is_fresh(cs, CAP * sizeof(int)))
+void w_rm(int* om_i, int* om_v, int* os, int* cm_i, int* cm_v, int* cs, int* nown, int* ncross, int j)
+__CPROVER_requires(__CPROVER_is_fresh(om_i, FILE_CELLS * sizeof(int)) && __CPROVER_is_fresh(om_v, FILE_CELLS * sizeof(int)) && __CPROVER_is_fresh(os, CAP * sizeof(int)))
+__CPROVER_requires(__CPROVER_is_fresh(cm_i, FILE_CELLS * sizeof(int)) && __CPROVER_is_fresh(cm_v, FILE_CELLS * sizeof(int)) && __CPROVER_is_fresh(cs, CAP * sizeof(int)))
 __CPROVER_requires(__CPROVER_is_fresh(nown, sizeof(int)) && __CPROVER_is_fresh(ncross, sizeof(int)))
 __CPROVER_requires(1 <= *nown && *nown <= CAP && 0 <= *ncross && *ncross <= CAP && 0 <= j && j < *nown)
 __CPROVER_requires(g_n0 == *nown && g_last == *nown - 1 && g_j == j && g_rm_calls == 0)
@@ -40,8 +40,8 @@ __CPROVER_requires(g_has == HAS(om, os, g_src, g_c) && g_v == VALOF(om, os, g_sr
 /* definitions of the invariant ghosts */
 __CPROVER_requires(g_oh == HAS(cm, cs, g_c, g_i) && g_ov == VALOF(cm, cs, g_c, g_i) && g_ohj == HAS(cm, cs, g_c, j))
 __CPROVER_requires(g_ohl == HAS(cm, cs, g_c, g_last) && g_ovl == VALOF(cm, cs, g_c, g_last))
-__CPROVER_assigns(g_rm_calls, g_rm_arg, g_rm_set, gp_om, gp_os, gp_cm, gp_cs, g_pos_i, g_pos_n, gp_pe, *nown, __CPROVER_object_whole(om), __CPROVER_object_whole(os),
-                  __CPROVER_object_whole(cm), __CPROVER_object_whole(cs))
+__CPROVER_assigns(g_rm_calls, g_rm_arg, g_rm_set, gp_om, gp_os, gp_cm, gp_cs, g_pos_i, g_pos_n, gp_pe, *nown, __CPROVER_object_whole(om_i), __CPROVER_object_whole(om_v), __CPROVER_object_whole(os),
+                  __CPROVER_object_whole(cm_i), __CPROVER_object_whole(cm_v), __CPROVER_object_whole(cs))
 /* the own set's remove(j) is called exactly once, with j; one vector less; the cross count is untouched */
 __CPROVER_ensures(g_rm_calls == 1 && g_rm_arg == j && g_rm_set == OWNSET && *nown == g_n0 - 1)
 /* mirror at the ghost cell, new numbering (g_i == last: that number no longer exists, covered by the range clause below) */
@@ -53,10 +53,10 @@ __CPROVER_ensures(SIZEOK(cs, g_c) && INRANGE(cm, cs, g_c, *nown) && NODUP(cm, cs
 
 void h_rm(void)
 {
-   int *om, *os, *cm, *cs, *nown, *ncross; int j;
+   int *om_i, *om_v, *os, *cm_i, *cm_v, *cs, *nown, *ncross; int j;
    g_rm_calls = nondet_int(); g_i = nondet_int(); g_c = nondet_int(); g_src = nondet_int(); g_j = nondet_int(); g_n0 = nondet_int(); g_last = nondet_int();
    g_has = nondet_int(); g_v = nondet_int(); g_hadj = nondet_int(); g_cs0 = nondet_int();
    g_oh = nondet_int(); g_ov = nondet_int(); g_ohj = nondet_int(); g_ohl = nondet_int(); g_ovl = nondet_int();
-   w_rm(om, os, cm, cs, nown, ncross, j);
+   w_rm(om_i, om_v, os, cm_i, cm_v, cs, nown, ncross, j);
    CANARY();
 }
